@@ -384,6 +384,9 @@ func fbb.(*Session).readCompressed(s, rw, p) (err)
   ensures payload: err == nil ==> len(p.compressedData) == p.compressedSize
   loop 0 invariant count: received == buf.len && buf.len == gPayloadBytes && buf.len >= 0 && 0 <= ourChecksum && ourChecksum < 256
   loop 1 invariant count: received == buf.len && buf.len == gPayloadBytes && buf.len >= 0 && 0 <= ourChecksum && ourChecksum < 256
+  # a data block carries as many bytes as its length byte says, 0 meaning 256 (any legal block size is accepted)
+  call bufio.(*Reader).ReadByte#3 set gBlockLenByte := $r0
+  loop 1 invariant block-length [C05 C01]: length == ite(gBlockLenByte == 0, 256, gBlockLenByte)
 
 # writeCompressed (C01/C05 frame-emit, C02 sent-implies-written, C17)
 #   SOH, L, title, NUL, offset, NUL with L == len(title)+len(offset)+2 (and L fits one byte);
@@ -392,6 +395,7 @@ func fbb.(*Session).readCompressed(s, rw, p) (err)
 #   byte sum, written only when all data is out; nil is returned only after the final flush.
 #   gRemainingOK: rely/guarantee for the status goroutine: 0 <= remaining <= len(data).
 ghost var gHdrLenByte int
+ghost var gBlockLenByte int
 ghost var gTitleBytes int
 ghost var gOffsetBytes int
 ghost var gOffsetField string
@@ -483,6 +487,7 @@ func fbb.(*Session).writeProposalsAnswer(s, rw, proposals) (nAccepted, err)
 #   received with every block verdict; only accepted proposals are transferred; after
 #   the first error nothing more is processed and the error is returned; a MID is
 #   appended to Received iff its message was processed without error.
+ghost var gInSum int
 ghost var gXferOK *Proposal
 ghost var gMsg *Message
 ghost var gMsgOf *Proposal
@@ -506,6 +511,14 @@ func fbb.(*Session).handleInbound(s, rw) (quitReceived, err)
   at append#1 requires received-iff-processed: gProcessedOK != nil && gProcessedOK == prop && !gFailed
   at return requires error-propagates: gFailed ==> $r1 != nil
   loop 0 invariant proposals: forall k :: 0 <= k && k < len(proposals) ==> proposals[k] != nil && proposals[k].answer == 0 && proposals[k].compressedSize >= 0
+  # C05 receive side: the checksum announced after "F> " is compared with the two's complement
+  # of the byte sum of the proposal lines received (each with its CR); the block is answered
+  # only if they agree, and refused with a checksum error only if they do not
+  loop 0 invariant in-sum [C05 C01]: ourChecksum == gInSum
+  loop 1 invariant bytes [C05 C01]: 0 <= i && i <= len(line) && ourChecksum == entry(ourChecksum) + BSum(line, i) && gInSum == entry(gInSum)
+  at append#0 set gInSum := gInSum + BSum(line, len(line)) + 13
+  at return#4 requires checksum-error-only-on-mismatch [C05 C01]: their != mod(0 - gInSum, 256)
+  call fbb.(*Session).writeProposalsAnswer requires block-checksum-verified [C05 C04]: their == mod(0 - gInSum, 256)
   loop 2 invariant delivering: (forall k :: 0 <= k && k < len(proposals) ==> proposals[k] != nil && proposals[k].compressedSize >= 0) && !gFailed && (s.h == nil ==> forall k :: 0 <= k && k < len(proposals) ==> proposals[k].answer != '+')
 
 # byte sum of the first n bytes of a string
